@@ -42,6 +42,8 @@ Proof.
   all: try (split_ands; discriminate).
   all: try (right; split_ands; split; [now apply fresh_none|]; eexists; repeat split; reflexivity).
   all: try (left; eexists; split; [eassumption|]; proj_simp; repeat split; eauto 7; fail).
+  all: try (unmark; left; exists b0; split; [assumption|]; split; [congruence|]; split; [left; assumption|];
+            split; left; assumption).
   all: left; eexists; split; [eassumption|]; proj_simp; split; [reflexivity|]; split; [|split].
   all: try (left; reflexivity).
   all: try (right; eexists; repeat split; eauto; fail).
@@ -49,6 +51,56 @@ Proof.
   all: try (right; do 2 eexists; split; reflexivity).
 Qed.
 
+
+Lemma tgt_back_presumed : forall s e s' t x',
+  step s e = Some s' -> nget (tgts s') t = Some x' -> t_presumed x' = true ->
+  (exists x, nget (tgts s) t = Some x /\ t_presumed x = true) \/ e_k e = KStateSet t TAdding THealthy.
+Proof.
+  intros s [tm a k] s' t x' H Hx Hp. destruct k; step_inv H; proj_simp;
+    try (left; exists x'; split; auto; fail).
+  all: norm; try (left; exists x'; split; auto; fail).
+  all: try (split_ands; discriminate).
+  all: try (left; eexists; split; [eassumption|]; proj_simp; auto; fail).
+  all: try (split_ands; apply add_targets_inv in Hx; destruct Hx as [[Hin ->]|[Hin Hx]];
+            [discriminate|left; exists x'; split; auto]; fail).
+  all: try (left; eexists; split; [eassumption|]; destruct ok; proj_simp; auto; fail).
+  all: try (right; clear Heqb; split_ands; repeat match goal with H : tstate_eqb _ _ = true |- _ => apply tstate_eqb_eq in H end;
+            subst; reflexivity).
+Qed.
+
+Lemma bal_back_flags : forall s e s' lb b',
+  step s e = Some s' -> nget (bals s') lb = Some b' ->
+  (exists b, nget (bals s) lb = Some b /\ b_cmd b' = b_cmd b /\
+     (b_restored b' = true -> b_restored b = true \/
+        exists sv act roll, e_k e = KRestored sv act roll /\ In lb (opt_list act ++ opt_list roll))) \/
+  (nget (bals s) lb = None /\ exists ts, e_k e = KLbNew lb ts /\ b_cmd b' = is_cmd (e_by e) /\ b_restored b' = false).
+Proof.
+  intros s [tm a k] s' lb b' H Hb. destruct k; step_inv H; proj_simp;
+    try (left; exists b'; repeat split; auto; fail).
+  all: norm; try (left; exists b'; repeat split; auto; fail).
+  all: try (split_ands; discriminate).
+  all: try (right; split_ands; split; [now apply fresh_none|]; eexists; repeat split; reflexivity).
+  all: try (left; eexists; split; [eassumption|]; proj_simp; repeat split; auto; fail).
+  unmark. left. exists b0. repeat split; auto. intros Hr. destruct (Hrest Hr) as [Hr0|Hin]; auto.
+  right. do 3 eexists. split; [reflexivity|]. exact Hin.
+Qed.
+
+Lemma step_lbnew_cmd : forall s tm a lb ts s',
+  step s (mkEv tm a (KLbNew lb ts)) = Some s' -> is_cmd a = true ->
+  exists b, nget (bals s') lb = Some b /\ b_cmd b = true.
+Proof.
+  intros s tm a lb ts s' H Ha. destruct a; try discriminate Ha.
+  step_inv H; proj_simp; rewrite nget_nset_same; eexists; split; reflexivity.
+Qed.
+
+Lemma step_restored : forall s tm a sv act roll s',
+  step s (mkEv tm a (KRestored sv act roll)) = Some s' ->
+  is_cmd a = false /\ exists n, act = Some n /\ forallb (restorable s) (n :: opt_list roll) = true /\
+    bals s' = mark_restored (n :: opt_list roll) (bals s) /\ tgts s' = tgts s.
+Proof.
+  intros s tm a sv act roll s' H. step_inv H; proj_simp. split_ands.
+  split; [destruct a; try reflexivity; discriminate|]. eexists. repeat split; auto.
+Qed.
 
 (** * C01: the acceptor implies the monitor *)
 
@@ -58,8 +110,82 @@ Record R1 (s : state) (m : mon1) : Prop := mkR1 {
   r1_pok : forall t x, nget (tgts s) t = Some x -> t_pok x = true -> In t (m_pok m);
   r1_wok : forall lb b, nget (bals s) lb = Some b -> b_waited b = Some true -> In lb (m_wok m);
   r1_failed : forall lb, In lb (m_failed m) -> exists b, nget (bals s) lb = Some b /\ b_waited b = Some false;
-  r1_claimed : forall t, In t (m_claimed m) -> exists x b, nget (tgts s) t = Some x /\ nget (bals s) (t_lb x) = Some b /\ b_waited b = Some true
+  r1_claimed : forall t, In t (m_claimed m) -> exists x b, nget (tgts s) t = Some x /\ nget (bals s) (t_lb x) = Some b /\ bal_ready b
 }.
+
+(** the part of the relation that concerns restores *)
+Record R1x (s : state) (m : mon1) : Prop := mkR1x {
+  r1_lic : forall t x, nget (tgts s) t = Some x -> t_presumed x = true -> In t (m_lic m);
+  r1_wok' : forall lb, In lb (m_wok m) -> exists b, nget (bals s) lb = Some b /\ b_waited b = Some true;
+  r1_cmd : forall lb, In lb (m_cmd m) -> exists b, nget (bals s) lb = Some b /\ b_cmd b = true;
+  r1_rest : forall lb b, nget (bals s) lb = Some b -> b_restored b = true -> In lb (m_rest m);
+  r1_rest' : forall lb, In lb (m_rest m) -> exists b, nget (bals s) lb = Some b /\ b_restored b = true
+}.
+
+Lemma r1x_init : R1x init m1_init.
+Proof. constructor; cbn; intros; try discriminate; contradiction. Qed.
+
+(** how one monitor step changes the lists R1x speaks about *)
+Definition lic_upd (e : event) (l : list nat) : list nat :=
+  match e_k e with KStateSet t TAdding THealthy => t :: l | _ => l end.
+Definition wok_upd (e : event) (l : list nat) : list nat :=
+  match e_k e with KDeployWaited lb true => lb :: l | _ => l end.
+Definition cmd_upd (e : event) (l : list nat) : list nat :=
+  match e_k e with KLbNew lb _ => if is_cmd (e_by e) then lb :: l else l | _ => l end.
+Definition rest_upd (e : event) (l : list nat) : list nat :=
+  match e_k e with KRestored _ act roll => (opt_list act ++ opt_list roll) ++ l | _ => l end.
+
+Lemma c01_step_upd : forall m e m', c01_step m e = Some m' ->
+  m_lic m' = lic_upd e (m_lic m) /\ m_wok m' = wok_upd e (m_wok m) /\
+  m_cmd m' = cmd_upd e (m_cmd m) /\ m_rest m' = rest_upd e (m_rest m).
+Proof.
+  intros m [tm a k] m' H. unfold c01_step, lic_upd, wok_upd, cmd_upd, rest_upd in *. cbn [e_k e_by] in *.
+  destruct k; try (inversion H; subst; auto; fail);
+  repeat match type of H with context [match ?x with _ => _ end] => destruct x end;
+  try discriminate; inversion H; subst; cbn; auto.
+Qed.
+
+Lemma r1x_step : forall s e s' m m', Inv s -> R1x s m -> step s e = Some s' -> c01_step m e = Some m' -> R1x s' m'.
+Proof.
+  intros s e s' m m' HI HX H Hm. destruct (c01_step_upd _ _ _ Hm) as [E1 [E2 [E3 E4]]]. constructor.
+  - (* lic *)
+    intros t x' Hx Hp. rewrite E1. unfold lic_upd.
+    destruct (tgt_back_presumed _ _ _ _ _ H Hx Hp) as [[x [Hx0 Hp0]]|Hk].
+    + pose proof (r1_lic _ _ HX _ _ Hx0 Hp0) as Hin.
+      destruct (e_k e); auto. destruct orig; auto. destruct new; auto. right; auto.
+    + rewrite Hk. left. reflexivity.
+  - (* wok' *)
+    intros lb Hin. rewrite E2 in Hin. unfold wok_upd in Hin.
+    assert (Hold : In lb (m_wok m) -> exists b, nget (bals s') lb = Some b /\ b_waited b = Some true).
+    { intros H0. destruct (r1_wok' _ _ HX _ H0) as [b [Hb Hw]].
+      destruct (bal_stable _ _ _ _ _ H Hb) as [b' [H1 [_ [_ H2]]]]. eauto. }
+    destruct e as [tm a k]. cbn [e_k] in Hin. destruct k; auto. destruct ok; auto.
+    destruct Hin as [<-|Hin]; auto.
+    destruct (step_waited _ _ _ _ _ _ H) as [b [b' [_ [_ [Hb' [Hw' _]]]]]]. eauto.
+  - (* cmd *)
+    intros lb Hin. rewrite E3 in Hin. unfold cmd_upd in Hin.
+    assert (Hold : In lb (m_cmd m) -> exists b, nget (bals s') lb = Some b /\ b_cmd b = true).
+    { intros H0. destruct (r1_cmd _ _ HX _ H0) as [b [Hb Hc]].
+      destruct (bal_flags_stable _ _ _ _ _ H Hb) as [b' [H1 [H2 _]]]. exists b'. split; congruence. }
+    destruct e as [tm a k]. cbn [e_k e_by] in Hin. destruct k; auto.
+    destruct (is_cmd a) eqn:Ea; auto. destruct Hin as [<-|Hin]; auto.
+    eapply step_lbnew_cmd; eauto.
+  - (* rest *)
+    intros lb b' Hb Hr. rewrite E4. unfold rest_upd.
+    destruct (bal_back_flags _ _ _ _ _ H Hb) as [[b [Hb0 [_ Hor]]]|[_ [ts [_ [_ Hf]]]]]; [|congruence].
+    destruct (Hor Hr) as [Hr0|[sv [act [roll [Hk Hin]]]]].
+    + pose proof (r1_rest _ _ HX _ _ Hb0 Hr0) as Hin. destruct (e_k e); auto. apply in_or_app. auto.
+    + rewrite Hk. apply in_or_app. auto.
+  - (* rest' *)
+    intros lb Hin. rewrite E4 in Hin. unfold rest_upd in Hin.
+    assert (Hold : In lb (m_rest m) -> exists b, nget (bals s') lb = Some b /\ b_restored b = true).
+    { intros H0. destruct (r1_rest' _ _ HX _ H0) as [b [Hb Hr]].
+      destruct (bal_flags_stable _ _ _ _ _ H Hb) as [b' [H1 [_ H2]]]. eauto. }
+    destruct e as [tm a k]. cbn [e_k] in Hin. destruct k; auto.
+    apply in_app_or in Hin. destruct Hin as [Hin|Hin]; auto.
+    destruct (step_restored _ _ _ _ _ _ _ H) as [_ [n [-> [Hall [Hbals _]]]]]. rewrite Hbals.
+    cbn [opt_list app] in Hin. eapply restored_ready; eauto.
+Qed.
 
 Lemma r1_init : R1 init m1_init.
 Proof. constructor; cbn; intros; try discriminate; contradiction. Qed.
@@ -82,11 +208,11 @@ Proof.
 Qed.
 
 Lemma r1_claimed_stable : forall s e s' m, step s e = Some s' -> R1 s m ->
-  forall t, In t (m_claimed m) -> exists x b, nget (tgts s') t = Some x /\ nget (bals s') (t_lb x) = Some b /\ b_waited b = Some true.
+  forall t, In t (m_claimed m) -> exists x b, nget (tgts s') t = Some x /\ nget (bals s') (t_lb x) = Some b /\ bal_ready b.
 Proof.
   intros s e s' m H HR t Hin. destruct (r1_claimed _ _ HR _ Hin) as [x [b [Hx [Hb Hw]]]].
   destruct (tgt_stable _ _ _ _ _ H Hx) as [x' [H1 [H2 _]]].
-  destruct (bal_stable _ _ _ _ _ H Hb) as [b' [H3 [_ [_ H4]]]].
+  destruct (bal_ready_stable _ _ _ _ _ H Hb Hw) as [b' [H3 [H4 _]]].
   exists x', b'. rewrite H2. auto.
 Qed.
 
@@ -118,14 +244,44 @@ Proof.
   - eapply r1_claimed_stable; eauto.
 Qed.
 
-Lemma sim1 : forall s e s' m, Inv s -> R1 s m -> step s e = Some s' ->
+Lemma restorable_m1 : forall s m lb, R1 s m -> R1x s m -> restorable s lb = true -> m1_restorable m lb = true.
+Proof.
+  intros s m lb HR HX H. destruct (restorable_spec _ _ H) as [b [Hb [Hc [_ [_ [Hw [Hp _]]]]]]].
+  unfold m1_restorable. rewrite (r1_lbs _ _ HR _ _ Hb).
+  assert (N1 : nmem lb (m_cmd m) = false).
+  { apply nmem_false. intros Hin. destruct (r1_cmd _ _ HX _ Hin) as [b1 [Hb1 Hc1]]. congruence. }
+  assert (N2 : nmem lb (m_wok m) = false).
+  { apply nmem_false. intros Hin. destruct (r1_wok' _ _ HX _ Hin) as [b1 [Hb1 Hw1]]. congruence. }
+  assert (N3 : nmem lb (m_failed m) = false).
+  { apply nmem_false. intros Hin. destruct (r1_failed _ _ HR _ Hin) as [b1 [Hb1 Hw1]]. congruence. }
+  rewrite N1, N2, N3. cbn [negb andb]. apply forallb_forall. intros t Hin. apply nmem_In.
+  destruct (is_presumed_true _ _ (Hp _ Hin)) as [x [Hx Hpx]]. eapply (r1_lic _ _ HX); eauto.
+Qed.
+
+Lemma sim1_restored : forall s tm a sv act roll s' m, Inv s -> R1 s m -> R1x s m ->
+  step s (mkEv tm a (KRestored sv act roll)) = Some s' ->
+  exists m', c01_step m (mkEv tm a (KRestored sv act roll)) = Some m' /\ R1 s' m'.
+Proof.
+  intros s tm a sv act roll s' m HI HR HX H.
+  assert (HR' : R1 s' m) by (eapply r1_keep; eauto; cbn; intros; discriminate).
+  destruct (step_restored _ _ _ _ _ _ _ H) as [Ha [n [-> [Hall _]]]].
+  unfold c01_step; cbn [e_k e_by opt_list app]. rewrite Ha. cbn [negb andb].
+  assert (Hm : forallb (m1_restorable m) (n :: opt_list roll) = true).
+  { apply forallb_forall. intros lb Hin. rewrite forallb_forall in Hall. apply (restorable_m1 s); auto. }
+  rewrite Hm. eexists; split; [reflexivity|]. destruct HR'. constructor; auto.
+Qed.
+
+Lemma sim1 : forall s e s' m, Inv s -> R1 s m -> R1x s m -> step s e = Some s' ->
   exists m', c01_step m e = Some m' /\ R1 s' m'.
 Proof.
-  intros s [tm a k] s' m HI HR H.
+  intros s [tm a k] s' m HI HR HX H.
   destruct k; try (exists m; split; [reflexivity|]; eapply r1_keep; eauto; cbn; intros; discriminate).
   - (* KDeployWaited *)
     destruct (step_waited _ _ _ _ _ _ H) as [b [b' [Hb [Hn [Hb' [Hw' _]]]]]].
-    destruct ok; unfold c01_step; cbn [e_k].
+    assert (Hnr : nmem lb (m_rest m) = false).
+    { apply nmem_false. intros Hin. destruct (r1_rest' _ _ HX _ Hin) as [b1 [Hb1 Hr1]].
+      destruct (step_waited_cmd _ _ _ _ _ _ HI H) as [b2 [Hb2 [_ Hr2]]]. congruence. }
+    destruct ok; unfold c01_step; cbn [e_k]; rewrite Hnr; cbn [orb].
     + eexists; split; [reflexivity|]. constructor; cbn [m_tlb m_lbs m_pok m_lic m_wok m_failed m_claimed].
       * intros t x' Hx. destruct (tgt_back _ _ _ _ _ H Hx) as [[x [Hx0 [Hl _]]]|[_ [? [? [Hk _]]]]]; [|discriminate Hk].
         rewrite <- Hl. eapply (r1_tlb _ _ HR); eauto.
@@ -143,7 +299,9 @@ Proof.
         apply existsb_exists in Ex. destruct Ex as [t [Hin Hc]]. apply nmem_In in Hc.
         destruct (r1_claimed _ _ HR _ Hc) as [x [b1 [Hx [Hb1 Hw1]]]].
         destruct (i_ts _ HI _ _ _ Hb Hin) as [x2 [Hx2 Hl2]]. rewrite Hx in Hx2. inversion Hx2; subst x2.
-        rewrite Hl2 in Hb1. rewrite Hb in Hb1. inversion Hb1; subst b1. congruence. }
+        rewrite Hl2 in Hb1. rewrite Hb in Hb1. inversion Hb1; subst b1.
+        destruct Hw1 as [Hw1|Hr1]; [congruence|].
+        destruct (step_waited_cmd _ _ _ _ _ _ HI H) as [b2 [Hb2 [_ Hr2]]]. congruence. }
       rewrite Hno. eexists; split; [reflexivity|]. constructor; cbn [m_tlb m_lbs m_pok m_lic m_wok m_failed m_claimed].
       * intros t x' Hx. destruct (tgt_back _ _ _ _ _ H Hx) as [[x [Hx0 [Hl _]]]|[_ [? [? [Hk _]]]]]; [|discriminate Hk].
         rewrite <- Hl. eapply (r1_tlb _ _ HR); eauto.
@@ -160,6 +318,8 @@ Proof.
     destruct (step_slot _ _ _ _ _ _ _ _ H) as [b [Hb Hw]].
     unfold c01_step; cbn [e_k]. rewrite (proj2 (nmem_In _ _) (r1_wok _ _ HR _ _ Hb Hw)).
     exists m; split; [reflexivity|]. eapply r1_keep; eauto; cbn; intros; discriminate.
+  - (* KRestored *)
+    eapply sim1_restored; eauto.
   - (* KLbNew *)
     destruct (step_lbnew _ _ _ _ _ _ H) as [Hnone [Hfr [b0 [Hb0 [Hts0 [Hw0 _]]]]]].
     unfold c01_step; cbn [e_k]. eexists; split; [reflexivity|].
@@ -184,15 +344,20 @@ Proof.
     destruct (i_pend _ HI _ _ _ Hp Hc) as [b [Hb [Hw Hin]]].
     destruct (i_ts _ HI _ _ _ Hb Hin) as [x1 [Hx1 Hl1]]. rewrite Hx in Hx1. inversion Hx1; subst x1.
     unfold c01_step; cbn [e_k]. rewrite (r1_tlb _ _ HR _ _ Hx), Hl1, (r1_lbs _ _ HR _ _ Hb).
-    assert (Hall : forallb (fun t' => nmem t' (m_pok m) || nmem t' (m_lic m)) (b_ts b) = true).
-    { apply forallb_forall. intros t' Hin'. destruct (i_ts _ HI _ _ _ Hb Hin') as [x' [Hx' _]].
-      pose proof (i_waited _ HI _ _ _ _ Hb Hw Hin' Hx') as Hwt.
-      pose proof (i_wsig _ HI _ _ Hx' Hwt) as Hsg.
-      pose proof (i_sigpok _ HI _ _ Hx' (or_introl Hsg)) as Hpk.
-      rewrite (proj2 (nmem_In _ _) (r1_pok _ _ HR _ _ Hx' Hpk)). reflexivity. }
-    assert (Hnf : nmem (p_lb p) (m_failed m) = false).
-    { apply nmem_false. intros Hf. destruct (r1_failed _ _ HR _ Hf) as [b1 [Hb1 Hw1]]. congruence. }
-    rewrite Hall, Hnf. cbn [andb negb]. eexists; split; [reflexivity|].
+    assert (Hlic : nmem (p_lb p) (m_rest m)
+                   || (forallb (fun t' => nmem t' (m_pok m)) (b_ts b) && nmem (p_lb p) (m_wok m) && negb (nmem (p_lb p) (m_failed m))) = true).
+    { destruct Hw as [Hw|Hr].
+      - assert (Hall : forallb (fun t' => nmem t' (m_pok m)) (b_ts b) = true).
+        { apply forallb_forall. intros t' Hin'. destruct (i_ts _ HI _ _ _ Hb Hin') as [x' [Hx' _]].
+          pose proof (i_waited _ HI _ _ _ _ Hb Hw Hin' Hx') as Hwt.
+          pose proof (i_wsig _ HI _ _ Hx' Hwt) as Hsg.
+          pose proof (i_sigpok _ HI _ _ Hx' (or_introl Hsg)) as Hpk.
+          exact (proj2 (nmem_In _ _) (r1_pok _ _ HR _ _ Hx' Hpk)). }
+        assert (Hnf : nmem (p_lb p) (m_failed m) = false).
+        { apply nmem_false. intros Hf. destruct (r1_failed _ _ HR _ Hf) as [b1 [Hb1 Hw1]]. congruence. }
+        rewrite Hall, Hnf, (proj2 (nmem_In _ _) (r1_wok _ _ HR _ _ Hb Hw)). apply orb_true_r.
+      - rewrite (proj2 (nmem_In _ _) (r1_rest _ _ HX _ _ Hb Hr)). reflexivity. }
+    rewrite Hlic. eexists; split; [reflexivity|].
     constructor; cbn [m_tlb m_lbs m_pok m_lic m_wok m_failed m_claimed].
     * intros t0 x' Hx0. destruct (tgt_back _ _ _ _ _ H Hx0) as [[x2 [Hx2 [Hl _]]]|[_ [? [? [Hk _]]]]]; [|discriminate Hk].
       rewrite <- Hl. eapply (r1_tlb _ _ HR); eauto.
@@ -205,7 +370,7 @@ Proof.
     * eapply r1_failed_stable; eauto.
     * intros t0 [<-|Hin0]; [|eapply r1_claimed_stable; eauto].
       destruct (tgt_stable _ _ _ _ _ H Hx) as [x' [Hx' [Hl' _]]].
-      destruct (bal_stable _ _ _ _ _ H Hb) as [b' [Hb' [_ [_ Hw']]]].
+      destruct (bal_ready_stable _ _ _ _ _ H Hb Hw) as [b' [Hb' [Hw' _]]].
       exists x', b'. rewrite Hl', Hl1. auto.
   - (* KProbeApply *)
     unfold c01_step; cbn [e_k]. destruct ok.
@@ -230,16 +395,17 @@ Proof.
     eexists; split; [reflexivity|]. destruct HR'. constructor; auto.
 Qed.
 
+
 Theorem accepted_c01_ok : forall tr, accepted tr = true -> c01_ok tr = true.
 Proof.
   intros tr H. unfold accepted in H. destruct (run step init tr) as [s|] eqn:E; [|discriminate].
-  assert (G : forall tr s0 m0 s1, Inv s0 -> R1 s0 m0 -> run step s0 tr = Some s1 -> exists m1, run c01_step m0 tr = Some m1).
-  { clear. induction tr as [|e tr IH]; intros s0 m0 s1 HI HR Hrun; cbn in *.
+  assert (G : forall tr s0 m0 s1, Inv s0 -> R1 s0 m0 -> R1x s0 m0 -> run step s0 tr = Some s1 -> exists m1, run c01_step m0 tr = Some m1).
+  { clear. induction tr as [|e tr IH]; intros s0 m0 s1 HI HR HX Hrun; cbn in *.
     - eauto.
     - destruct (step s0 e) as [s2|] eqn:E; [|discriminate].
-      destruct (sim1 _ _ _ _ HI HR E) as [m2 [Hm2 HR2]]. rewrite Hm2.
-      apply (IH s2 m2 s1); [eapply inv_step; eauto|exact HR2|exact Hrun]. }
-  destruct (G _ _ _ _ inv_init r1_init E) as [m1 Hm1]. unfold c01_ok. now rewrite Hm1.
+      destruct (sim1 _ _ _ _ HI HR HX E) as [m2 [Hm2 HR2]]. rewrite Hm2.
+      apply (IH s2 m2 s1); [eapply inv_step; eauto|exact HR2|eapply r1x_step; eauto|exact Hrun]. }
+  destruct (G _ _ _ _ inv_init r1_init r1x_init E) as [m1 Hm1]. unfold c01_ok. now rewrite Hm1.
 Qed.
 
 
